@@ -50,10 +50,12 @@ class CommonJSONDecoder(json.JSONDecoder):
                 (isoformat, tzofs, tzname) = obj['type{datetime}']
                 parsed = datetime.datetime \
                     .strptime(isoformat, DATETIME_P_FORMAT)
-                if tzname is not None:
+                if tzofs is not None:
+                    tzofs = datetime.timedelta(seconds=tzofs)
                     return datetime.datetime \
                         .combine(parsed.date(), parsed.time(),
-                                 datetime.timezone(datetime.timedelta(seconds=tzofs), tzname))
+                                 datetime.timezone(tzofs, tzname) if tzname is not None
+                                 else datetime.timezone(tzofs))
                 else:
                     return parsed
             except ValueError:
